@@ -458,6 +458,17 @@ def _dyn(inst, mech, prefix, v, p, stored=False):
                 res[("update", dt, g)] = np.asarray(got[skeys[g]])
     res[("current",)] = np.asarray(kl.run_current(inst, {k: xx for k in skeys.values()}, vv, params,
                                                   v_pre=np.full(N * S, -33.5) if kl.is_synapse(mech) else None))
+    # steady-state initialisation (channels): which keys come back, mapped to local names, and their values
+    if not kl.is_synapse(mech) and hasattr(inst, "init_state"):
+        try:
+            got = kl.run_init_state(inst, {k: xx for k in skeys.values()}, vv, params)
+            local_of = {kk: g for g, kk in skeys.items()}
+            res[("init_keys",)] = sorted(local_of.get(k, f"?{k}") for k in got)
+            for k, a in got.items():
+                if k in local_of:
+                    res[("init", local_of[k])] = np.asarray(a)
+        except Exception as e:
+            res[("init_keys",)] = [f"raised {type(e).__name__}"]
     return res
 
 
@@ -553,7 +564,7 @@ def check_rename(mech, chain, v, out, kinds=(), custom=False):
         return
     out["evals"] += 3 * len(v) * len(kl.STATE_ALPHABET)
     for k in a:
-        same = k in b and (np.array_equal(a[k], b[k], equal_nan=True) if isinstance(a[k], np.ndarray) else True)
+        same = k in b and (np.array_equal(a[k], b[k], equal_nan=True) if isinstance(a[k], np.ndarray) else (a[k] == b[k] or k[0] == "keys"))
         if k[0] == "keys" or not same:
             out["violations"].append(_viol({"rule": "rename_dynamics", "mech": mech, "what": k[0]}, wit,
                                            f"{mech} chain {chain}: {k} differs from the unrenamed mechanism"))
